@@ -63,6 +63,9 @@ CLAIMED['C19'] = ('ir2c', 'bounded model checking (CBMC) of the clang IR of PyIm
 CLAIMED['C20'] = ('ir2c', 'bounded model checking (CBMC) of the clang IR of the real PyImath task classes (built by the wrapper as VectorizedFunctionN::apply builds them) translated to C: one execute(start,end) call with symbolic sub-range from arbitrary valid array states',
     'For each generic task template (VectorizedOperation1/2/3, VectorizedVoidOperation0/1/2, VectorizedMaskedVoidOperation1) in 26 accessor-kind combinations (direct / masked / scalar) and for the hand-written Box IntersectsTask: for EVERY sub-range [start,end) of [0,L), L <= 2 (4 thorough), result[i] == op(args[i]) exactly on the sub-range, every other element of the result store, the guard zones and all argument arrays untouched; tasks cannot be built on read-only or wrong-kind arrays; mismatched argument lengths raise before any access. Partition / order / concurrency independence follows by the stated pen-and-paper step (disjoint write frames, read-only arguments).',
     'Trusted: clang-14, vf/ll2c.py, CBMC. Counterexamples are replayed natively against the g++-built real task classes. dispatchTask/WorkerPool (virtual dispatch), the binding glue, GIL and real threads, floating-point hand-written tasks and other element types are not decided.', '3/C20')
+CLAIMED['C04'] = ('ir2c', 'bounded model checking (CBMC: minisat/kissat/z3/cvc5) of generated wrappers over the clang IR translated to C: one obligation per (aggregate type, element type, operator spelling); libstdc++ stream primitives stubbed as event recorders for operator<<',
+    'About 320 obligations generated from a table (Vec2/3/4, Color3/4, Shear6, Quat, Matrix22/33/44 x float,int,short,unsigned char in the quick tier; double,int64 in the thorough tier): every output component of every operator spelling (binary, compound, unary minus, negate(), scalar on either side, component-wise * and /) equals the scalar operation on the corresponding components for ALL operand bit patterns; ==/!= and equalWithAbs/RelError depend on every component; operator[] / m[i][j] / getValue address one contiguous block of exactly N elements in declaration order, row-major; operator<< emits exactly one number per component in order inside one pair of parentheses, whitespace-separated, matrices one row per line, for arbitrary stream state.',
+    'Trusted: clang-14, vf/ll2c.py (validated each run against g++ and clang++ builds), CBMC/z3. FP arithmetic is uninterpreted on both sides (commutative + and *) for the arithmetic obligations; integer arithmetic wraps; number rendering by libstdc++ is outside; half-element aggregates, converting and interop constructors are not yet covered.', '3/C04')
 NOT_YET = 'check not built yet in this working session (planned in DESIGN.md section 3); no claim is made'
 NA = {}
 
